@@ -603,7 +603,7 @@ def buffer_rules(cc: CppCodec, rep, rule: str) -> None:
                 continue
             seen_ns.add(key_ns)
             rep.violation(rule, F, "fcp::Buffer::%s" % m.get("name"), "`<<` by a variable count computed in %d-bit int, then widened to %s" % (w, tq),
-                          "the shift is evaluated in a %d-bit integer and only afterwards converted to %s: for counts of %d and more the mask/bit is wrong (fields wider than %d bits)" % (w, tq, w - 1, w))
+                          "the shift is evaluated in a %d-bit integer and only afterwards converted to %s: for counts of %d and more the mask/bit is wrong (fields wider than %d bits)" % (w, tq, w - 1, w))["construct_level"] = True  # typed fact about one expression
     for m in methods:
         name = m.get("name")
         body = [c for c in m.inner if c.kind == "CompoundStmt"]
